@@ -7,6 +7,7 @@ import (
 	"os"
 	"os/exec"
 	"reflect"
+	"strings"
 	"sync"
 	"time"
 
@@ -101,6 +102,10 @@ func init() {
 	if os.Getenv("C20_HISTORY_CHILD") == "1" {
 		os.Exit(historyChild())
 	}
+	// worker mode (worker.go): serve tasks from stdin and exit
+	if os.Getenv("C20_WORKER") == "1" {
+		os.Exit(workerMain())
+	}
 }
 
 type histStep struct {
@@ -148,6 +153,11 @@ func historyChild() int {
 	return 0
 }
 
+// errNoReturn: the history's process did not finish within the deadline.
+var errNoReturn = fmt.Errorf("history child: no return within the deadline")
+
+const historyDeadline = 15 * time.Second
+
 // runHistory runs the steps in a fresh process of this very binary.
 func runHistory(steps []histStep) ([]histResult, error) {
 	exe, err := os.Executable()
@@ -156,7 +166,12 @@ func runHistory(steps []histStep) ([]histResult, error) {
 	}
 	in, _ := json.Marshal(steps)
 	cmd := exec.Command(exe)
-	cmd.Env = append(os.Environ(), "C20_HISTORY_CHILD=1")
+	for _, kv := range os.Environ() {
+		if !strings.HasPrefix(kv, "C20_WORKER=") {
+			cmd.Env = append(cmd.Env, kv)
+		}
+	}
+	cmd.Env = append(cmd.Env, "C20_HISTORY_CHILD=1")
 	cmd.Stdin = bytes.NewReader(in)
 	var stdout, stderr bytes.Buffer
 	cmd.Stdout, cmd.Stderr = &stdout, &stderr
@@ -170,9 +185,9 @@ func runHistory(steps []histStep) ([]histResult, error) {
 		if err != nil {
 			return nil, fmt.Errorf("history child: %v: %s", err, stderr.String())
 		}
-	case <-time.After(60 * time.Second):
+	case <-time.After(historyDeadline):
 		cmd.Process.Kill()
-		return nil, fmt.Errorf("history child: timeout")
+		return nil, errNoReturn
 	}
 	var res []histResult
 	d := json.NewDecoder(&stdout)
@@ -268,6 +283,17 @@ func (c *checker) replayHistories(j *job) {
 			sem <- struct{}{}
 			defer func() { <-sem }()
 			res, err := runHistory(steps)
+			if err == errNoReturn { // confirm in another fresh process
+				if res, err = runHistory(steps); err == errNoReturn {
+					last := steps[len(steps)-1]
+					mu.Lock()
+					ctx.Violation(core.Sig{Family: "history", Feature: "no-return:" + skeleton(last.G)},
+						fmt.Sprintf("a process converting %d values in a row does not finish within %v (twice); last value %s", len(steps), historyDeadline, canon(last.G)),
+						map[string]interface{}{"kind": "history", "steps": steps, "step": len(steps) - 1, "no_return": true})
+					mu.Unlock()
+					return
+				}
+			}
 			mu.Lock()
 			defer mu.Unlock()
 			if err != nil {
